@@ -37,6 +37,27 @@ bool IsMethodPrefix(const std::string &str)
     }
     return false;
 }
+
+//! 解析 Content-Length 的值：只接受纯十进制数字，且不能溢出
+bool ParseContentLength(const std::string &str, size_t &value)
+{
+    if (str.empty())
+        return false;
+
+    const size_t max_value = std::numeric_limits<size_t>::max() - 1;    //! max() 用于表示"没有指定"
+    size_t result = 0;
+    for (char c : str) {
+        if (c < '0' || c > '9')
+            return false;
+        size_t digit = static_cast<size_t>(c - '0');
+        if (result > (max_value - digit) / 10)
+            return false;
+        result = result * 10 + digit;
+    }
+
+    value = result;
+    return true;
+}
 }
 
 RequestParser::~RequestParser()
@@ -149,8 +170,13 @@ size_t RequestParser::parse(const void *data_ptr, size_t data_size)
             auto head_value = util::string::Strip(str.substr(head_value_start_pos, head_value_end_pos - head_value_start_pos));
             sp_request_->headers[head_key] = head_value;
 
-            if (head_key == "Content-Length")
-                content_length_ = std::stoi(head_value);
+            if (head_key == "Content-Length") {
+                //! 必须是合法的十进制非负整数，否则视为解析失败
+                if (!ParseContentLength(head_value, content_length_)) {
+                    state_ = State::kFail;
+                    return pos;
+                }
+            }
 
             pos = end_pos + 2;
         }
